@@ -135,4 +135,10 @@ Qed.
 (** the invariant is preserved, so histories can be continued *)
 Theorem cache_inv_step gs es q c : cache_inv gs c -> cache_inv gs (snd (step vf2b enum gs es q c)).
 Proof. intros Hc. destruct (step_pure gs es q c Hc) as (c' & E & H'). rewrite E. exact H'. Qed.
+
+(** the cache observed at the end of a history holds the true histograms *)
+Theorem end_cache_inv gs es qs : forall c, cache_inv gs c -> cache_inv gs (end_cache vf2b enum gs es qs c).
+Proof.
+  induction qs as [|q qs IH]; intros c Hc; simpl; [exact Hc|]. apply IH. apply cache_inv_step. exact Hc.
+Qed.
 End WithVF2.
